@@ -85,6 +85,8 @@ type nsWorld struct {
 	known    map[*HostInfo]bool
 	blockFP  []string
 	partitioned [][2]int
+	// udpExtra is an additional predicate over every datagram a node puts on the wire ("" = fine)
+	udpExtra func(src *nsNode, p *nsPacket) string
 }
 
 type nsInjected struct {
@@ -651,6 +653,9 @@ func (w *nsWorld) checkUDPDestinations(rt *rapid.T, extra func(src *nsNode, p *n
 			if n.Masked().Contains(p.To.Addr()) {
 				rt.Fatalf("node %s sent %v to an underlay address inside its own overlay network %v", src.name, p, n)
 			}
+		}
+		if extra == nil {
+			extra = w.udpExtra
 		}
 		if extra != nil {
 			if msg := extra(src, p); msg != "" {
